@@ -36,6 +36,12 @@ type parseOut struct {
 
 const watchdog = 10 * time.Second
 
+// watchdogFor: the base allowance plus 100 us per input byte (the parser is linear at roughly 10 us per byte when
+// the machine is idle); only the base part is shortened while rapid minimises a failing case.
+func watchdogFor(sql string) time.Duration {
+	return pbt.Wait(watchdog) + time.Duration(len(sql))*100*time.Microsecond
+}
+
 func parseWD(sql string) parseOut {
 	ch := make(chan parseOut, 1)
 	start := time.Now()
@@ -54,7 +60,7 @@ func parseWD(sql string) parseOut {
 	select {
 	case o := <-ch:
 		return o
-	case <-time.After(pbt.Wait(watchdog)):
+	case <-time.After(watchdogFor(sql)):
 		return parseOut{hang: true, took: time.Since(start)}
 	}
 }
@@ -74,7 +80,7 @@ func parseChild(sql string) parseOut {
 	defer os.Remove(f.Name())
 	f.WriteString(sql)
 	f.Close()
-	ctx, cancel := context.WithTimeout(context.Background(), 120*time.Second)
+	ctx, cancel := context.WithTimeout(context.Background(), 60*time.Second+watchdogFor(sql))
 	defer cancel()
 	cmd := exec.CommandContext(ctx, os.Args[0], "-test.run=^TestChildParse$", "-test.v")
 	cmd.Env = append(os.Environ(), "C11_CHILD_INPUT="+f.Name())
@@ -132,7 +138,7 @@ func totality(res *pbt.Result, sql string, o parseOut) bool {
 		res.Add(pbt.D("fatal-crash", "rsql.Parse killed the process (not a recoverable panic): %s; input %s", o.fatal, short(sql)))
 		return false
 	case o.hang:
-		res.Add(pbt.D("hang", "rsql.Parse did not return within %v for %s", pbt.Wait(watchdog), short(sql)))
+		res.Add(pbt.D("hang", "rsql.Parse did not return within %v for %s", watchdogFor(sql), short(sql)))
 		return false
 	case o.panic != nil:
 		st := o.stack
